@@ -21,6 +21,10 @@ pub struct Scn {
     pub cap: usize,
     pub filter: FilterSpec,
     pub trace: Vec<Timed>,
+    /// unified analyzer: before frame `.0` the capture ends, the application installs filter `.1` on the same
+    /// instance, and a new capture run starts
+    #[serde(default)]
+    pub refilter: Option<(usize, FilterSpec)>,
 }
 
 pub struct C15;
@@ -311,7 +315,15 @@ impl Prop for C15 {
             }
         }
         let filter = gen_filter(r, &trace);
-        Scn { kind, cap: 64 + r.usize_below(200), filter, trace }
+        // unified analyzer, one trace in three: the filter is replaced half-way, at a point where the same connection
+        // continues across the boundary more often than not
+        let refilter = if kind == Kind::Unified && trace.len() >= 4 && r.chance(1, 3) {
+            let k = r.urange(1, trace.len() - 1);
+            Some((k, gen_filter(r, &trace)))
+        } else {
+            None
+        };
+        Scn { kind, cap: 64 + r.usize_below(200), filter, trace, refilter }
     }
 
     fn run(s: &Scn, st: &mut RunStats) -> Result<(), Violation> {
@@ -319,10 +331,35 @@ impl Prop for C15 {
         with.filter = Some(s.filter.clone());
         let without = SutCfg::new(s.kind, s.cap);
         let fcfg = sut::filter_tcp(&s.filter);
-        let admit: Vec<Option<bool>> = s.trace.iter().map(|p| view(&p.frame).map(|(a, b, sp, dp)| fcfg.should_process(&a, &b, sp, dp))).collect();
-        let a = run(&with, &s.trace)?;
+        let second = s.refilter.as_ref().filter(|_| s.kind == Kind::Unified).map(|(k, f)| (*k, sut::filter_tcp(f)));
+        let admit: Vec<Option<bool>> = s
+            .trace
+            .iter()
+            .enumerate()
+            .map(|(i, p)| {
+                let f = match &second {
+                    Some((k, f2)) if i >= *k => f2,
+                    _ => &fcfg,
+                };
+                view(&p.frame).map(|(a, b, sp, dp)| f.should_process(&a, &b, sp, dp))
+            })
+            .collect();
         let sub: Vec<Timed> = s.trace.iter().zip(admit.iter()).filter(|(_, ad)| ad.unwrap_or(true)).map(|(p, _)| p.clone()).collect();
-        let b = run(&without, &sub)?;
+        #[cfg(not(huginn_net_verif_sched))]
+        let (a, b) = match (&s.refilter, second.is_some()) {
+            (Some((k, f2)), true) if *k > 0 && *k < s.trace.len() => {
+                st.fault("filter_replaced_on_a_used_instance");
+                clock::arm(1_700_000_000_000);
+                let a = sut::run_loop_refilter(&with, &s.trace, &[*k], &[(*k, f2.clone())]).map_err(|e| Violation::new("harness-error", "", e))?;
+                let k_sub = admit[..*k].iter().filter(|ad| ad.unwrap_or(true)).count();
+                clock::arm(1_700_000_000_000);
+                let b = sut::run_loop_breaks(&without, &sub, &[k_sub]).map_err(|e| Violation::new("harness-error", "", e))?;
+                (a, b)
+            }
+            _ => (run(&with, &s.trace)?, run(&without, &sub)?),
+        };
+        #[cfg(huginn_net_verif_sched)]
+        let (a, b) = (run(&with, &s.trace)?, run(&without, &sub)?);
         st.packets += (s.trace.len() + sub.len()) as u64;
         st.sim_ns += s.trace.last().map(|p| p.t).unwrap_or(0);
         let n_adm = admit.iter().filter(|x| **x == Some(true)).count();
